@@ -16,6 +16,7 @@ func flag(name string) bool { return sym.Choice(name, 2) == 1 }
 
 // memRemote models a remote object store: a map plus per-operation fault flags.
 type memRemote struct {
+	breakBodyAfter int // >=0: Get bodies break off after that many bytes
 	data       map[string]string
 	failGet    bool
 	failSet    bool
@@ -25,6 +26,23 @@ type memRemote struct {
 }
 
 var errRemote = errors.New("remote unavailable")
+
+// flakyBody delivers the first `good` bytes and then fails (a connection that breaks off)
+type flakyBody struct {
+	data string
+	good int
+	pos  int
+}
+
+func (f *flakyBody) Read(p []byte) (int, error) {
+	if f.pos >= f.good {
+		return 0, errors.New("connection reset by peer")
+	}
+	n := copy(p, f.data[f.pos:f.good])
+	f.pos += n
+	return n, nil
+}
+func (f *flakyBody) Close() error { return nil }
 
 func (m *memRemote) TypeName() string { return "mem" }
 
@@ -36,6 +54,9 @@ func (m *memRemote) Get(ctx context.Context, path, key string) (io.ReadCloser, e
 	c, ok := m.data[path+"/"+key]
 	if !ok {
 		return nil, errors.New("no such object")
+	}
+	if m.breakBodyAfter >= 0 && m.breakBodyAfter < len(c) {
+		return &flakyBody{data: c, good: m.breakBodyAfter}, nil
 	}
 	return io.NopCloser(strings.NewReader(c)), nil
 }
@@ -92,7 +113,7 @@ func readAllClose(r io.ReadCloser) string {
 
 // R2/R4: write-through on machine A, read-through on machine B, under remote faults
 func VerifC08_R_mirror() {
-	remote := &memRemote{data: map[string]string{}}
+	remote := &memRemote{data: map[string]string{}, breakBodyAfter: -1}
 	content := sym.StringAlpha("content", 2, "ab")
 	remote.failSet = flag("remote_put_fails")
 	remote.setReads = flag("failing_put_consumes_body")
@@ -163,4 +184,25 @@ func VerifC08_R_object_names() {
 	sym.Assert(sym.Iff(sym.StrEq(g.buildPath(p1, k1), g.buildPath(p2, k2)), same), "C08.R3.gcs-object-names-injective")
 	sym.Assert(sym.HasPrefix(s.buildPath(p1, k1), s.fullPrefix()+"/"), "C08.R3.objects-live-under-the-workspace-prefix")
 	sym.Reach("C08.R.names")
+}
+
+// R2b: a remote body that breaks off half way is an error (a miss), never truncated content -
+// neither returned nor committed to the local cache under the key
+func VerifC08_R_broken_body() {
+	remote := &memRemote{data: map[string]string{"cas/k1": "0123456789"}, breakBodyAfter: sym.Choice("body_breaks_after", 10)}
+	b, ctx := machine("b", remote)
+	r, err := b.Get(ctx, "cas", "k1")
+	returnedTruncated := false
+	if err == nil {
+		data, rerr := io.ReadAll(r)
+		_ = r.Close()
+		returnedTruncated = rerr == nil && string(data) != "0123456789"
+	}
+	sym.Assert(!returnedTruncated, "C08.R2.truncated-remote-body-is-never-returned-as-content")
+	committedTruncated := false
+	if lr, lerr := b.GetFS().Get(ctx, "cas", "k1"); lerr == nil {
+		committedTruncated = readAllClose(lr) != "0123456789"
+	}
+	sym.Assert(!committedTruncated, "C08.R2.truncated-remote-body-is-never-committed-locally")
+	sym.Reach("C08.R.broken-body")
 }
